@@ -84,6 +84,10 @@ impl FixtureDatabase {
     #[verifier::external_body]
     pub(crate) fn is_editable_install_third_party(&self, file_path: &Path) -> (r: bool)
     { unimplemented!() }
+    /// reads workspace_root (environment); only called inside vp_is_third_party; under contract in unit classify
+    #[verifier::external_body]
+    pub(crate) fn is_in_site_packages(&self, file_path: &Path) -> (r: bool)
+    { unimplemented!() }
     // undeclared.rs scan_function_body_for_undeclared_fixtures: the contract PROVED in unit undeclared_scan (the findings
     // pushed onto undeclared_fixtures[file_path] are exactly scan_fn(..); nothing else changes) -- the frame formerly
     // ASSUMED here is a consequence of it
@@ -108,7 +112,7 @@ impl FixtureDatabase {
 @tags C03 C06 C15 C12
 @recv mut
 @wrapexpr 1 `ann_assign.value.as_deref()` => `Self::vp_ann_value(ann_assign)` with fn vp_ann_value(ann_assign: &rustpython_parser::ast::StmtAnnAssign) -> (r: Option<&Expr>) ensures opt_deref(r) == opt_unbox(ann_assign.value)
-@wrapexpr 1 `file_path.to_string_lossy().contains("site-packages") || self.is_editable_install_third_party(file_path)` => `self.vp_is_third_party(file_path)` with fn vp_is_third_party(&self, file_path: &PathBuf) -> (r: bool) ensures r == env_third_party(pbv(file_path))
+@wrapexpr 1 `self.is_in_site_packages(file_path) || self.is_editable_install_third_party(file_path)` => `self.vp_is_third_party(file_path)` with fn vp_is_third_party(&self, file_path: &PathBuf) -> (r: bool) ensures r == env_third_party(pbv(file_path))
 @wrapexpr 1 `self.plugin_fixture_files.contains_key(file_path)` => `self.vp_is_plugin(file_path)` with fn vp_is_plugin(&self, file_path: &PathBuf) -> (r: bool) ensures r == env_is_plugin(pbv(file_path))
 @wrapexpr 1 `func_name.starts_with("test_")` => `Self::vp_is_test_name(func_name)` with fn vp_is_test_name(func_name: &str) -> (r: bool) ensures r == is_test_name(func_name@)
 @replace 1 `Self::all_args(args)` => `Self::vp_all_args(args)`
@@ -505,7 +509,7 @@ impl FixtureDatabase {
 /*@ extract src/fixtures/analyzer.rs visit_assignment_fixture
 @tags C03 C06 C15 C12
 @recv mut
-@wrapexpr 1 `file_path.to_string_lossy().contains("site-packages") || self.is_editable_install_third_party(file_path)` => `self.vp_is_third_party_a(file_path)` with fn vp_is_third_party_a(&self, file_path: &PathBuf) -> (r: bool) ensures r == env_third_party(pbv(file_path))
+@wrapexpr 1 `self.is_in_site_packages(file_path) || self.is_editable_install_third_party(file_path)` => `self.vp_is_third_party_a(file_path)` with fn vp_is_third_party_a(&self, file_path: &PathBuf) -> (r: bool) ensures r == env_third_party(pbv(file_path))
 @wrapexpr 1 `self.plugin_fixture_files.contains_key(file_path)` => `self.vp_is_plugin_a(file_path)` with fn vp_is_plugin_a(&self, file_path: &PathBuf) -> (r: bool) ensures r == env_is_plugin(pbv(file_path))
 @sig
     requires is_line_index(ints(line_index@)),
